@@ -174,13 +174,14 @@ void prop_c11(hz::Ctx &ctx) {
 }
 
 // ------------------------------------------------------------------ C16: spelling
-struct Style { uint64_t seed = 0; bool upper_mn = false, upper_reg = false, upper_kw = false, upper_x = false, upper_hex = false; int sp_comma_l = 0, sp_comma_r = 1, sp_in = 0, sp_op = 0, lead = 0, trail = 0; bool lead_tab = false; std::string comment; int radix = 0 /*0 keep 1 force dec 2 force hex 3 hex with leading zeros*/; int nrewrites = 0; };
+struct Style { int big_where = 0 /*0 none 1 indentation 2 after a comma 3 inside brackets 4 trailing 5 before the first operand*/, big_n = 0; bool big_tab = false; uint64_t seed = 0; bool upper_mn = false, upper_reg = false, upper_kw = false, upper_x = false, upper_hex = false; int sp_comma_l = 0, sp_comma_r = 1, sp_in = 0, sp_op = 0, lead = 0, trail = 0; bool lead_tab = false; std::string comment; int radix = 0 /*0 keep 1 force dec 2 force hex 3 hex with leading zeros*/; int nrewrites = 0; };
 
 static std::string mixcase(const std::string &s, bool upper, hz::Rng &rng, bool mixed) {
   std::string o = s; for (auto &ch : o) if (upper && (!mixed || rng.coin())) ch = (char)toupper((unsigned char)ch); return o;
 }
 static std::string sp(int n) { return std::string(n, ' '); }
 static std::string num_styled(uint64_t v, bool neg, bool hex, int pad, const Style &st, bool allow_radix, hz::Rng &rng) {
+  if (allow_radix && st.radix == 4) { std::string d = numtext(v, false, false, 0); if (neg) d = numtext(v, true, false, 0).substr(1); return std::string(neg ? "-" : "") + std::string(1 + rng.below(3), '0') + d; }
   if (allow_radix && st.radix) { if (st.radix == 1) { hex = false; pad = 0; } else { hex = true; pad = st.radix == 3 ? pad + 1 + (int)rng.below(3) : pad; if (st.radix == 3 && pad < 2) pad = 2 + (int)rng.below(4); } }
   // a zero-padded literal must not reach 16 digits by accident (that would be a different SMART-mode request)
   if (hex && pad > 15) pad = pad == 16 && !allow_radix ? 16 : 15;
@@ -191,17 +192,18 @@ static std::string num_styled(uint64_t v, bool neg, bool hex, int pad, const Sty
 static std::string styled(const Intent &it, const Style &st, bool allow_radix) {
   hz::Rng rng(st.seed);
   bool mixed = (st.seed & 4) != 0;
-  std::string s = (st.lead_tab ? std::string(st.lead, '\t') : sp(st.lead)) + mixcase(it.mn, st.upper_mn, rng, mixed);
+  auto big = [&](int where) { return st.big_where == where ? std::string(st.big_n, st.big_tab && where != 5 ? '\t' : ' ') : std::string(); };
+  std::string s = big(1) + (st.lead_tab ? std::string(st.lead, '\t') : sp(st.lead)) + mixcase(it.mn, st.upper_mn, rng, mixed);
   for (size_t k = 0; k < it.ops.size(); k++) {
     const WOpd &o = it.ops[k];
-    s += k ? sp(st.sp_comma_l) + "," + sp(st.sp_comma_r) : " " + sp(st.sp_op);
+    s += k ? sp(st.sp_comma_l) + "," + sp(st.sp_comma_r) + (k == 1 ? big(2) : std::string()) : " " + sp(st.sp_op) + big(5);
     if (k == 0 && o.k == K_REL && it.brkw) s += mixcase(it.brkw == 1 ? "short" : "long", st.upper_kw, rng, mixed) + " " + sp(st.sp_op);
     if (k == 0 && it.far) s += mixcase("far", st.upper_kw, rng, mixed) + " " + sp(st.sp_op);
     switch (o.k) {
       case K_MEM: {
         const WMem &m = o.m;
         if (m.kw) s += mixcase(m.kw == 8 ? "byte" : m.kw == 16 ? "word" : m.kw == 32 ? "dword" : "qword", st.upper_kw, rng, mixed) + " " + sp(st.sp_op);
-        s += "[" + sp(st.sp_in); bool any = false;
+        s += "[" + sp(st.sp_in) + big(3); bool any = false;
         if (m.base >= 0) { s += mixcase(regtext(wgpr(m.base, m.asize)), st.upper_reg, rng, mixed); any = true; }
         if (m.index >= 0) {
           if (any) s += sp(st.sp_in) + "+" + sp(st.sp_in);
@@ -216,7 +218,7 @@ static std::string styled(const Intent &it, const Style &st, bool allow_radix) {
       default: s += mixcase(regtext(o), st.upper_reg, rng, mixed);
     }
   }
-  s += sp(st.trail) + st.comment;
+  s += sp(st.trail) + big(4) + st.comment;
   return s;
 }
 static Style random_style(hz::Rng &rng, bool allow_radix) {
@@ -229,7 +231,9 @@ static Style random_style(hz::Rng &rng, bool allow_radix) {
   if (rng.below(3) == 0) { st.lead = 1 + (int)rng.below(6); st.lead_tab = rng.coin(); n++; }
   if (rng.below(4) == 0) { st.trail = 1 + (int)rng.below(3); n++; }
   if (rng.below(3) == 0) { static const char *C[] = {";", "; comment", ";mov rax, rbx", " ; x:y, [z]", ";;; 100% \"quoted\" 'text' \\ | ~", "; section global", ";\t tab"}; st.comment = C[rng.below(7)]; n++; }
-  if (allow_radix && rng.below(2)) { st.radix = 1 + (int)rng.below(3); n += 2; }
+  if (allow_radix && rng.below(2)) { st.radix = 1 + (int)rng.below(4); n += 2; }
+  // occasionally a very long run of blanks (the property does not bound the amount of blanks)
+  if (rng.below(8) == 0) { st.big_where = 1 + (int)rng.below(5); st.big_n = 40 + (int)rng.below(260); st.big_tab = rng.coin(); n += 2; }
   st.nrewrites = n; return st;
 }
 
@@ -278,7 +282,7 @@ void prop_c16(hz::Ctx &ctx) {
       if (!ctx.begin(id, text(it))) continue;
       SpV v = check_spelling(it, combo, ss);
       hz::Rng r2(ss); Style st = random_style(r2, !(is_mov_r64_imm(it) && combo_opts(combo).mov == 2));
-      ctx.cls("group:line-spelling"); if (st.radix) ctx.cls("rewrite:radix"); if (st.upper_mn || st.upper_reg || st.upper_kw || st.upper_x || st.upper_hex) ctx.cls("rewrite:case"); if (!st.comment.empty()) ctx.cls("rewrite:comment"); if (st.lead) ctx.cls("rewrite:indent"); if (st.sp_in || st.sp_comma_l || st.sp_op) ctx.cls("rewrite:spacing");
+      ctx.cls("group:line-spelling"); if (st.radix) ctx.cls("rewrite:radix"); if (st.radix == 4) ctx.cls("rewrite:decimal-leading-zeros"); if (st.big_where) ctx.cls("rewrite:long-blank-run"); if (st.upper_mn || st.upper_reg || st.upper_kw || st.upper_x || st.upper_hex) ctx.cls("rewrite:case"); if (!st.comment.empty()) ctx.cls("rewrite:comment"); if (st.lead) ctx.cls("rewrite:indent"); if (st.sp_in || st.sp_comma_l || st.sp_op) ctx.cls("rewrite:spacing");
       if (st.nrewrites >= 2) ctx.nontrivial(v.variant + "#" + std::to_string(combo));
       if (ctx.want_sample()) ctx.put_sample("\"" + v.canon + "\" vs \"" + v.variant + "\" [" + combo_name(combo) + "] -> " + (v.ok ? "same bytes" : v.symptom));
       if (!v.ok) { hz::Failure f = make_failure(c, v.symptom, v.detail); f.caseid = id; f.tags.push_back("group:line-spelling"); if (st.radix) f.tags.push_back("rewrite:radix"); ctx.fail(f); }
